@@ -11,13 +11,15 @@
 (*   fsize    RLIMIT_FSIZE = L for strided L in 0..size (real short writes + EFBIG)              *)
 (*   eio_kill an EIO at k, then SIGKILL at each system call of the error path that follows       *)
 (*   eio_eio  an EIO at k, then EIO at each system call of the error path that follows           *)
+(*   nonio    build only: the last source file does not exist -- the build fails for a reason    *)
+(*            unrelated to the output after part of it has been produced (Err => dest = Prev)    *)
 EXTENDS Integers, Sequences, SequencesExt, FiniteSets, Json, IOUtils, TLC
 
 Thorough == IOEnv.VERIF_TIER = "thorough"
 
 Vers  == 1..4
-Kinds == IF Thorough THEN <<"none", "kill", "eio", "enospc", "enospcp", "fsize", "eio_kill", "eio_eio">>
-                     ELSE <<"none", "kill", "eio", "enospc", "enospcp", "fsize", "eio_kill">>
+Kinds == IF Thorough THEN <<"none", "kill", "eio", "enospc", "enospcp", "fsize", "eio_kill", "eio_eio", "nonio">>
+                     ELSE <<"none", "kill", "eio", "enospc", "enospcp", "fsize", "eio_kill", "nonio">>
 Stride(kind) == IF Thorough THEN 1
                 ELSE CASE kind = "kill" -> 1 [] kind = "eio" -> 1 [] kind = "eio_kill" -> 3 [] OTHER -> 2
 FsizePoints == IF Thorough THEN 48 ELSE 10
@@ -28,6 +30,9 @@ NFiles == IF Thorough THEN 10 ELSE 6
 
 Configs ==
     {[op |-> "build", ver |-> v, prevk |-> pk, opt |-> o] : v \in Vers, pk \in {"absent", "present"}, o \in Opts}
+    \* Prev is whatever was there: a 0-byte placeholder, an unrelated file, a read-only archive, a directory
+    \cup {[op |-> "build", ver |-> v, prevk |-> pk, opt |-> "plain"] : v \in Vers, pk \in {"empty", "garbage", "readonly", "dir"}}
+    \cup {[op |-> "compact", ver |-> v, prevk |-> "readonly", opt |-> "plain"] : v \in {1, 4}}
     \cup {[op |-> "compact", ver |-> v, prevk |-> "present", opt |-> o] : v \in Vers, o \in Opts}
     \* previous archive produced by an in-place session (V1/V2: remove; grow = relocated tables; add/remove/rename)
     \cup {[op |-> "compact", ver |-> v, prevk |-> pk, opt |-> "plain"] : v \in {1, 2}, pk \in {"edited", "grown", "mixed"}}
